@@ -32,6 +32,7 @@ def run(tier):
     combos = [(d, s, l) for d in (1, 2, 3) for s in ('body', 'reference') for l in layouts]
   uni = X.universe()
   rep.extra['exception_classes'] = len(uni)
+  traces, descs, labels = [], {}, []
   for (label, fac), (depth, site, scopes) in itertools.product(uni, combos):
     rep.evaluations += 1
     rep.nontrivial_case('%s/%d/%s/%s' % (label, depth, site, '/'.join(scopes)))
@@ -42,6 +43,18 @@ def run(tier):
     for sig, detail in fails:
       sig = dict(sig, kind='exception-fidelity')
       rep.violation(sig, dict(kind='exc-case', label=label, depth=depth, site=site, scopes=list(scopes), detail=detail))
+    if getattr(X.observe, 'last_trace', None):
+      traces.append(list(X.observe.last_trace))
+      descs[X.observe.last_desc['id']] = X.observe.last_desc
+      labels.append((label, depth, site, list(scopes)))
+  # code -> spec: every observation, as a trace, must be a behaviour of GinExc with today's named deviations
+  verdicts, res = _validate(list(descs.values()), traces)
+  rep.add_tlc('GinExc_Trace', res)
+  for (label, depth, site, scopes), ev, (ok, far) in zip(labels, traces, verdicts):
+    rep.traces_validated += 1
+    if not ok:
+      rep.violation(dict(kind='trace-rejected', module='GinExc', event=(ev[far - 1][0] if 0 < far <= len(ev) else None)),
+                    dict(kind='exc-case', label=label, depth=depth, site=site, scopes=scopes, detail='trace rejected at %d: %s' % (far, ev)))
   rep.sample(dict(kind='exception case', label='OSError', depth=3, site='reference', scopes=['a', 'b', 'c']))
   # witnesses of the recorded findings must still fail (otherwise they are fixed and the entry is stale)
   for f in rep._known:
@@ -49,6 +62,26 @@ def run(tier):
     if hit:
       rep.known_finding_still_fails(f['id'], '%s (%d cases in this run)' % (f['what'], hit))
   return rep.finish()
+
+
+def _validate(descs, traces):
+  import os, shutil
+  wd = tlc.scratch()
+  try:
+    tf = os.path.join(wd, 'exc.json')
+    with open(tf, 'w') as fh:
+      json.dump(dict(descs=descs, traces=traces), fh)
+    res = tlc.run('GinExc_Trace', 'GinExc_Trace.cfg', workers=1, env=dict(TRACE_FILE=tf), timeout=900, workdir=wd)
+    if res.violation:
+      raise tlc.TLCError('trace validation failed to run: %s\n%s' % (res.violation, res.stdout[-3000:]))
+    v = {}
+    for line in res.prints:
+      if line.startswith('<<"VERDICT"'):
+        t = tlc.parse_tla_tuple(line)
+        v[t[1]] = (t[2] >= t[3], t[2])
+    return [v.get(i + 1, (False, 0)) for i in range(len(traces))], res
+  finally:
+    shutil.rmtree(wd, ignore_errors=True)
 
 
 def replay(path):
